@@ -313,11 +313,12 @@ Theorem C14_zoom_keeps_value_and_coordinate :
   zoom_region (snd arr) = Ok (y0, y1, x0, x1) -> sy <> 0%R -> sx <> 0%R ->
   let h := (y1 - y0) + 2 * b in let w := (x1 - x0) + 2 * b in
   0 <= h -> 0 <= w ->
-  exists e g', zoomed_around_mask zero arr b = Ok e /\
-    @zoomed_geometry ROps (snd arr) (sy, sx, oy, ox) b = Ok ((h, w), g') /\ rectb h w e = true /\
+  exists e cy cx, zoomed_around_mask zero arr b = Ok e /\
+    @mask_centre ROps (snd arr) (sy, sx, oy, ox) = Ok (cy, cx) /\
+    @zoomed_geometry ROps (snd arr) (sy, sx, oy, ox) b = Ok ((h, w), (sy, sx, cy, cx)) /\ rectb h w e = true /\
     forall i j, 0 <= i < h -> 0 <= j < w ->
       (forall d, zget2 d e i j = ext_get zero (fst arr) (y0 - b + i) (x0 - b + j)) /\
-      @pixel_centre_spec ROps h w g' i j = @pixel_centre_spec ROps H W (sy, sx, oy, ox) (y0 - b + i) (x0 - b + j).
+      @pixel_centre_spec ROps h w (sy, sx, cy, cx) i j = @pixel_centre_spec ROps H W (sy, sx, oy, ox) (y0 - b + i) (x0 - b + j).
 Proof. exact @zoomed_keeps_value_and_coordinate. Qed.
 
 Theorem C14_zoom_geometry_negative_window_raises : forall (m : list (list bool)) (sy sx oy ox : R) y0 y1 x0 x1 b,
